@@ -108,3 +108,7 @@ Fixpoint loop_ctl {R S : Type} (fuel : nat) (cond : S -> res bool) (body : S -> 
       if c then x <- body s ;; match x with Ret r => Ok (Ret r) | Next s' => loop_ctl f cond body s' end
       else Ok (Next s)
   end.
+
+(** `x.leading_zeros()` and `a.div_ceil(b)` on unsigned values *)
+Definition leading_zeros (t : ity) (x : Z) : Z := if x <=? 0 then bits t else bits t - (Z.log2 x + 1).
+Definition div_ceil (a b : Z) : Z := (a + b - 1) / b.
